@@ -13,7 +13,7 @@ POOL = ['a\n', 'if a:\n', '  b\n', '    c\n', 'else:\n', '(\n', ')\n', 'def f(\n
         '\f\n', '\tz\n', '# c\n', 'a = 1; \n', 'except:\n', "  '\\\n", '  for i in j:\n',
         '      async def g():\n', 'lambda\n', "  x = f'''{\n",
         'elif a:\n', '  pass\n', 'import a\n', ']\n', '    """\n', 'with a as b: c\n']
-FINALS = ['', 'b', '  (', "'", '    if a:']
+FINALS = ['', 'b', '  (', "'", '    if a:', '    c']
 
 _state = {}
 
